@@ -87,10 +87,13 @@ def run_case(case):
     for a, b in zip(got, got[1:]):
         if not a[0] < b[0]:
             raise Violation('clock not strictly increasing: %s then %s' % (a, b))
-    # a second iteration of the same engine object gives the same events
-    again = [(e.ts, e.event_type) for e in eng]
+    # a second iteration of the same engine object gives the same events - this time the event objects are kept in
+    # a list first and read afterwards (each event is a value of its own)
+    kept = list(eng)
+    again = [(e.ts, e.event_type) for e in kept]
     if again != got:
-        raise Violation('iterating the same engine twice gives %d then %d events' % (len(got), len(again)))
+        raise Violation('the events of a second iteration, kept in a list and read afterwards, are %s...; read on the '
+                        'fly the first time they were %s... (%d / %d events)' % (again[:3], got[:3], len(again), len(got)))
     cls = gen.range_classes(case['start'], case['end'])
     cls.append('flags_%d%d' % (case['pre'], case['post']))
     if tz:
